@@ -6,6 +6,7 @@ export CARGO_NET_OFFLINE=true CARGO_TARGET_DIR=$PWD/build/target
 mkdir -p build/extract evidence replays
 cp /repo/Cargo.lock harness/Cargo.lock
 (cd harness && cargo build --release --offline)
+python3 tools/gen_tables.py
 (cd coq && coq_makefile -f _CoqProject -o Makefile >/dev/null && timeout 3000 make -j16)
 python3 - <<'PY'
 import sys
